@@ -48,6 +48,8 @@ TUni(ns) == [k |-> "uni", ns |-> ns]
 
 Req == [k |-> "req"]  DfNull == [k |-> "null"]  DfUndef == [k |-> "undef"]  DfUnser == [k |-> "unser"]
 DfVal(v) == [k |-> "val", v |-> v]
+\* a Python default next to the `required` metadata: required in the DATA (input field non-null, no default shown)
+DfReqVal(v) == [k |-> "reqval", v |-> v]
 
 ---------------------------------------------------------------------------
 \* 1. TYPE MAP
@@ -152,7 +154,7 @@ RECURSIVE ADeserObj(_, _, _)
 ADeserObj(M, n, d) ==
   LET fs == AllFields(M, n)
       val(f) == IF HasKey(d.o, FName(f)) THEN ADeser(M, f.t, Get(d.o, FName(f)))
-                ELSE CASE f.def.k = "req"   -> ArgErr            \* missing property, as deserialize says
+                ELSE CASE f.def.k \in {"req", "reqval"} -> ArgErr            \* missing property, as deserialize says
                        [] f.def.k = "null"  -> ArgOk(DNull)
                        [] f.def.k = "undef" -> ArgOk(VUndef)
                        [] f.def.k = "unser" -> ArgOk([k |-> "unser"])
